@@ -324,6 +324,7 @@ pub fn run(ctx: &mut Ctx) {
     }
     crate::spaces::render_probes(ctx, &["merge", "in"]);
     crate::spaces::width_probes(ctx);
+    crate::spaces::sweep::length_sweep(ctx);
     crate::spaces::type_grid_probes(ctx, &["merge", "in"]);
     crate::spaces::depth_probes(ctx);
 }
